@@ -15,6 +15,7 @@
 // Output: per case
 //     <idx> R <nodeIdx> <message>          the frontend rejected node <nodeIdx> (HCL_DESIGNCHECK)
 //     <idx> T <nodeIdx>                    operand types not accepted by the C++ overload set
+//     <idx> W <nodeIdx> ... <width>        the frontend accepted node <nodeIdx> with a width above 2^20 (not simulated)
 //     <idx> V <vecIdx> <val> <val> ...     one value per node:  <T><P>:<bits>
 //     <idx> C <val> <val> ...              construction-time values (pin-free DAGs only)
 //   T in U S V B, P = expansion policy of the resulting signal in n z o s.
@@ -264,6 +265,8 @@ static void runCase(size_t idx, const std::string &line, std::ostream &out) {
 			auto t = words(nodeStrs[cur]);
 			if (t.empty()) throw std::runtime_error("empty node");
 			cb.nodes.push_back(build(cb, t));
+			size_t w = std::visit([](const auto &x) { return (size_t) x.width().bits(); }, *cb.nodes.back());
+			if (w > (1u << 20)) { out << idx << " W " << cur << " accepted with width " << w << "\n"; return; }   // never simulate a nonsensical width
 		}
 	} catch (const TypeErr &) {
 		out << idx << " T " << cur << "\n"; return;
